@@ -19,7 +19,7 @@ TECH = {
     "C06": "RF-TAB writer/reader table agreement (mux vs demux data units) + RF-DOM on rejected frames",
     "C07": "RF-PURE no static-state writes + RF-IVL capacity intervals + RF-DOM cursor guards",
     "C09": "RF-IVL interval abstract interpretation of XDS buffer/table subscripts and assertion reachability with field invariants + RF-CORR current-packet invariant (typestate, must-pass-through) + RF-DOM checksum/parity/routing dominance, both implementations",
-    "C10": "RF-PAIR reference typestate + RF-DOM free-only-at-zero + RF-CORR coupled counters",
+    "C10": "RF-PAIR ownership typestate for page and network references (NULL-branch correlation, out-parameter and move-on-success summaries) + RF-DOM free/recycle/evict/reuse eligibility dominance + RF-IVL victim array capacity",
     "C11": "RF-CORR path-sensitive typestate (cursor patched or known elsewhere before every free) + RF-TYPESTATE no use of the record after the callback + RF-WHO/RF-CORR single mask writer on every path + RF-DOM Teletext gate + RF-LOCK event_mutex pairing with trylock correlation",
     "C12": "RF-NOWRITE failure leaves outputs untouched (path-sensitive typestate) + RF-NEG decode-error taint + RF-BITS bit-provenance abstract evaluation of the VPS/DVB-PDC encoders against their decoders",
     "C13": "RF-DOM debounce-condition dominance (structural branch atoms) on every announcement/reset site + RF-CORR must-pass-through re-arm/clear of the debounce state",
